@@ -17,7 +17,7 @@ LEVEL_TEXT = ("Held on every (graph, start, strand, check, has_indel, heap limit
               "free and check-consistent. Sampled over fault classes with floors on both fallback outcomes and on product-path "
               "cases where the check actually filtered a candidate out.")
 LEVEL_NOTE = "Trusts the walk oracle and VT formula in vlib; graphs are arc-subset and generated graphs of order 1..4."
-PLAN = {"quick": dict(shards=16, budget=100), "thorough": dict(shards=32, budget=400)}
+PLAN = {"quick": dict(shards=16, budget=100), "thorough": dict(shards=16, budget=400)}
 RULE = ("repair_dna(s, G, v, k, check, has_indel, heap_size) with s in {walks; walks with 1-6 edits anywhere; random strings; "
         "errors in the first / last window}, check in {none, VT(s), VT(original walk), arbitrary}, has_indel on/off, heap_size in "
         "{0, 1, 10, 1e3, 1e4}, G arc-subset or generated, k = 1..4. Verdict: s a walk => ([s], detected 0), or ([], detected 0) "
